@@ -114,6 +114,9 @@ def run_case(case, ch: Choices) -> RunResult:
         for si in range(1, nsteps + 1):
             if forced:
                 st = forced[si - 1]
+                if st["prior"] == "crashed_prefix" and st.get("crash_at") and st["crash_at"] > writes0 + 1 and case["id"].startswith("crash-sweep"):
+                    res.bump("sweep.crash_index_beyond_last_write")
+                    continue
             else:
                 st = {"hashseed": ch.pick("env.hashseed", HASHSEEDS) if ch.chance("env.hs_table", 2, 3) else ch.draw("env.hs_any", 2 ** 32),
                       "enum_seed": ch.draw("env.enum", 2 ** 20) if ch.chance("env.shuffle", 3, 4) else None,
@@ -253,17 +256,32 @@ def plan(tier, base_seed) -> Plan:
                             "prior": ["crashed_prefix", "over_existing", "twice", "crashed_prefix", "fresh", "crashed_prefix", "crashed_prefix"][i % 7],
                             "crash_at": [3, 0, 0, 8, 0, 5, 11][i % 7], "crash_kind": ["torn", "crash", "crash", "empty", "crash", "enospc", "torn"][i % 7]})
     n_corpus = len(cws)
+    # thorough: the previous generation is torn at EVERY write of a corpus world, systematically (kinds alternate)
+    sweeps = []
+    if tier != "quick":
+        for w in cws:
+            for lo in (1, 8, 15):
+                sweeps.append((w, [{"hashseed": [1, 2, 3][(k + lo) % 3], "enum_seed": 50 + k, "creation_seed": None, "clock": 1_700_000_000.0,
+                                    "prior": "crashed_prefix", "crash_at": k, "crash_kind": ["torn", "empty", "crash", "enospc"][k % 4]}
+                                   for k in range(lo, lo + 7)]))
+    n_sweep = len(sweeps)
 
     def case(i):
         if i < n_corpus:
             return {"id": "corpus-%s" % cws[i], "seed": derive_seed(base_seed, PROPERTY, "corpus", i),
                     "params": {"corpus": cws[i], "steps": len(forced_sets), "forced_steps": forced_sets}}
+        if i < n_corpus + n_sweep:
+            w, fs = sweeps[i - n_corpus]
+            return {"id": "crash-sweep-%s-%d" % (w, fs[0]["crash_at"]), "seed": derive_seed(base_seed, PROPERTY, "sweep", i),
+                    "params": {"corpus": w, "steps": len(fs), "forced_steps": fs}}
+        i -= n_sweep
         j = i - n_corpus
         return {"id": "drawn-%d" % j, "seed": derive_seed(base_seed, PROPERTY, "drawn", j), "params": {}}
 
-    return Plan(n_corpus + n_drawn, case,
-                note="%d corpus worlds under a fixed sweep of %d environments + %d drawn worlds with drawn histories" % (
-                    n_corpus, len(forced_sets), n_drawn))
+    return Plan(n_corpus + n_sweep + n_drawn, case,
+                note="%d corpus worlds under a fixed sweep of %d environments + %d crash-sweep cases (previous generation torn at every write index 1..21 of every corpus world) + %d drawn worlds with drawn histories" % (
+                    n_corpus, len(forced_sets), n_sweep, n_drawn),
+                exhaustive_part=("crash point of the previous generation: every write index 1..21 on every corpus world" if n_sweep else ""))
 
 
 def selftest_cases(tier, plan_):
